@@ -126,7 +126,8 @@ func runC09(x *Ctx) {
 	}
 	R := x.P.Reach(entries)
 	for f := range R {
-		if !x.P.IsLibrary(f) {
+		// compiler-generated wrappers / thunks only forward to the declared method, which is analysed itself
+		if !x.P.IsLibrary(f) || strings.HasPrefix(f.Synthetic, "wrapper") || strings.HasPrefix(f.Synthetic, "bound method") || strings.HasPrefix(f.Synthetic, "thunk") {
 			delete(R, f)
 		}
 	}
